@@ -18,6 +18,10 @@
 (*   box(n):  .val = n   .items = (n, n+1)   .plus(y) = n+y   .me() = self *)
 (*            .boom() raises ValueError     .nope raises AttributeError    *)
 (*   cnt:     .bump() increments and returns the new count (server state)  *)
+(*            .tmo() raises TimeoutError (the evaluated code, not transport) *)
+(*            .gboom() blocks inside the handler until the environment      *)
+(*            opens a gate, then raises ValueError: an evaluation that      *)
+(*            spans a shutdown request                                      *)
 (*   list:    iter(h) creates a server-side iterator over Src              *)
 (*   iter:    next -> the next element of Src, StopIteration at the end    *)
 (***************************************************************************)
@@ -35,7 +39,7 @@ Ref(i) == [k |-> "ref", n |-> i]
 Err(e) == [k |-> "err", e |-> e]
 IsErr(v) == v.k = "err"
 
-BoxOps  == {"val", "items0", "items1", "items2", "plus1", "me_val", "boom", "nope"}
+BoxOps  == {"val", "items0", "items1", "items2", "plus1", "me_val", "boom", "nope", "tmo", "gboom"}
 CntOps  == {"bump", "count"}
 IterOps == {"next"}
 ListOps == {"iter", "item0", "count11"}
@@ -48,12 +52,13 @@ VARIABLES store,      \* server table: Seq of objects, id = index
           resp,       \* [Clients -> response or NoResp]   (set by Handle, consumed by Ret)
           shut,       \* "up" | "shutting" | "stopped"
           calls,      \* number of requests issued
+          gate,       \* BOOLEAN: gboom evaluations may finish
           hshut,      \* [Clients -> server phase when the pending request was handled] (history)
           hist        \* [Clients -> Seq of [req, resp, sh]]
-vars == <<store, known, pend, resp, shut, calls, hshut, hist>>
+vars == <<store, known, pend, resp, shut, calls, gate, hshut, hist>>
 
 Init == /\ store = <<>> /\ known = {} /\ pend = [c \in Clients |-> NoReq] /\ resp = [c \in Clients |-> NoResp]
-        /\ shut = "up" /\ calls = 0 /\ hist = [c \in Clients |-> <<>>] /\ hshut = [c \in Clients |-> "up"]
+        /\ shut = "up" /\ calls = 0 /\ hist = [c \in Clients |-> <<>>] /\ hshut = [c \in Clients |-> "up"] /\ gate = FALSE
 
 NewObj(kind) == CASE kind = "box"  -> [k |-> "box", n |-> 3]
                   [] kind = "cnt"  -> [k |-> "cnt", n |-> 0]
@@ -69,6 +74,8 @@ Apply(o, op) ==
     [] o.k = "box" /\ op = "plus1"  -> <<I(o.n + 1), o, NoObj>>
     [] o.k = "box" /\ op = "me_val" -> <<I(o.n), o, NoObj>>
     [] o.k = "box" /\ op = "boom"   -> <<Err("ValueError"), o, NoObj>>
+    [] o.k = "box" /\ op = "tmo"    -> <<Err("TimeoutError"), o, NoObj>>      \* the evaluated code itself raises TimeoutError
+    [] o.k = "box" /\ op = "gboom"  -> <<Err("ValueError"), o, NoObj>>        \* blocks until the gate opens, then raises
     [] o.k = "cnt" /\ op = "bump"   -> <<I(o.n + 1), [o EXCEPT !.n = @ + 1], NoObj>>
     [] o.k = "cnt" /\ op = "count"  -> <<I(o.n), o, NoObj>>
     [] o.k = "iter" /\ op = "next"  -> IF o.n < L THEN <<I(Src(o.n + 1)), [o EXCEPT !.n = @ + 1], NoObj>>
@@ -83,7 +90,7 @@ CallNew(c, kind) ==
   /\ pend[c] = NoReq /\ calls < MaxCalls /\ Len(store) < MaxObjs /\ shut # "stopped"
   /\ pend' = [pend EXCEPT ![c] = [t |-> "new", kind |-> kind, id |-> 0, op |-> ""]]
   /\ calls' = calls + 1
-  /\ UNCHANGED <<store, known, resp, shut, hshut, hist>>
+  /\ UNCHANGED <<store, known, resp, shut, gate, hshut, hist>>
 
 CallOp(c, id, op) ==
   /\ pend[c] = NoReq /\ calls < MaxCalls /\ id \in known
@@ -91,11 +98,12 @@ CallOp(c, id, op) ==
   /\ op = "iter" => Len(store) < MaxObjs
   /\ pend' = [pend EXCEPT ![c] = [t |-> "op", kind |-> "", id |-> id, op |-> op]]
   /\ calls' = calls + 1
-  /\ UNCHANGED <<store, known, resp, shut, hshut, hist>>
+  /\ UNCHANGED <<store, known, resp, shut, gate, hshut, hist>>
 
 \* ---- a server handler thread evaluates the request of client c (linearization point)
 Handle(c) ==
   /\ pend[c] # NoReq /\ resp[c] = NoResp /\ shut # "stopped"
+  /\ (pend[c].t = "op" /\ pend[c].op = "gboom") => gate          \* the evaluation is still blocked
   /\ LET r == pend[c] IN
      IF r.t = "new"
      THEN /\ store' = Append(store, NewObj(r.kind))
@@ -106,14 +114,14 @@ Handle(c) ==
                         IF a[3] # NoObj THEN Ref(Len(store) + 1)
                         ELSE IF IsErr(a[1]) /\ shut = "shutting" THEN Err("TimeoutError") ELSE a[1]]
   /\ hshut' = [hshut EXCEPT ![c] = shut]
-  /\ UNCHANGED <<known, pend, shut, calls, hist>>
+  /\ UNCHANGED <<known, pend, shut, calls, gate, hist>>
 
 \* ---- the call ends at a stopped server: the client gives up with some connection error (outside C14)
 GiveUp(c) ==
   /\ pend[c] # NoReq /\ resp[c] = NoResp /\ shut = "stopped"
   /\ resp' = [resp EXCEPT ![c] = Err("Unreachable")]
   /\ hshut' = [hshut EXCEPT ![c] = shut]
-  /\ UNCHANGED <<store, known, pend, shut, calls, hist>>
+  /\ UNCHANGED <<store, known, pend, shut, calls, gate, hist>>
 
 \* ---- client thread c sees the answer
 Ret(c) ==
@@ -121,18 +129,21 @@ Ret(c) ==
   /\ hist' = [hist EXCEPT ![c] = Append(@, [req |-> pend[c], resp |-> resp[c], sh |-> hshut[c]])]
   /\ known' = IF resp[c].k = "ref" THEN known \cup {resp[c].n} ELSE known
   /\ pend' = [pend EXCEPT ![c] = NoReq] /\ resp' = [resp EXCEPT ![c] = NoResp]
-  /\ UNCHANGED <<store, shut, calls, hshut>>
+  /\ UNCHANGED <<store, shut, calls, gate, hshut>>
 
 Shutdown == /\ AllowShutdown /\ shut = "up" /\ shut' = "shutting"
-            /\ UNCHANGED <<store, known, pend, resp, calls, hshut, hist>>
+            /\ UNCHANGED <<store, known, pend, resp, calls, gate, hshut, hist>>
 Stop     == /\ shut = "shutting" /\ shut' = "stopped"
-            /\ UNCHANGED <<store, known, pend, resp, calls, hshut, hist>>
+            /\ UNCHANGED <<store, known, pend, resp, calls, gate, hshut, hist>>
+
+OpenGate == /\ ~gate /\ gate' = TRUE
+            /\ UNCHANGED <<store, known, pend, resp, shut, calls, hshut, hist>>
 
 Next == \/ \E c \in Clients : \/ \E kind \in Kinds : CallNew(c, kind)
                               \/ \E id \in 1..MaxObjs, op \in AllOps \cup {"nope"} : CallOp(c, id, op)
                               \/ Handle(c) \/ GiveUp(c) \/ Ret(c)
-        \/ Shutdown \/ Stop
-Fair == \A c \in Clients : WF_vars(Handle(c)) /\ WF_vars(GiveUp(c)) /\ WF_vars(Ret(c))
+        \/ Shutdown \/ Stop \/ OpenGate
+Fair == WF_vars(OpenGate) /\ \A c \in Clients : WF_vars(Handle(c)) /\ WF_vars(GiveUp(c)) /\ WF_vars(Ret(c))
 Spec == Init /\ [][Next]_vars /\ Fair
 
 \* ------------------------------------------------------------ properties
